@@ -15,6 +15,9 @@
    Abstract characters (small integers) carry a byte width and a lower-case image:
      1 'a'   2 'A'   3 U+0130 (2 bytes, lower-cases to 'i': a length-changing fold)   4 'i'   5 'b'
      10+d = the ASCII digit d.
+     40.. = multi-byte characters without case, given by their UTF-8 bytes (CharBytes): pairs that share a lead
+            byte (e-acute / e-grave, EURO / RUBLE / TRADE MARK, Cyrillic io / hard sign), that share only a
+            continuation byte (e-acute / COPYRIGHT), and two 4-byte characters.
    Regexps are not modelled: they come from a fixed family whose truth is a structural predicate. *)
 EXTENDS Integers, Sequences, FiniteSets, TLC, Json
 LOCAL INSTANCE SequencesExt
@@ -30,6 +33,10 @@ CONSTANTS Chars,       \* letters used in rule values and string fields (subset 
           D_EmptyContainerLen, \* deviation: computed size of an empty object/array is 1, not 2
           M_ShiftOnce,         \* mechanism: value_shift enters the ts_cmp threshold exactly once (FALSE = mutant
                                \* "shift applied twice", which TLC must reject: DoIf_mutant_shift.cfg)
+          M_ContainsAnyRunes,  \* mechanism: contains_any compares CHARACTERS (bytes.ContainsAny is rune based); FALSE =
+                               \* mutant "256-entry byte table", which TLC must reject: DoIf_mutant_bytetable.cfg
+          UChars,              \* the characters of part U (subset of {1} \cup 40..50)
+          UMaxData,            \* maximal length of a string field in part U
           PartsOn              \* the parts of the case space to explore ({} = all)
 
 VARIABLE cs            \* the case: [part, kind ("start" | "bucket" | "rule" | "events"), b, rule]
@@ -38,7 +45,23 @@ VARIABLE cs            \* the case: [part, kind ("start" | "bucket" | "rule" | "
 (* characters *)
 Null == <<-1>>                     \* the null element of a values list
 Nil  == <<-2>>                     \* a nil []byte in the transcription
-Width(c)     == IF c = 3 THEN 2 ELSE 1
+\* UTF-8 bytes of a character (bytes >= 128 are the real byte values; 31, 32 stand for the two bytes of U+0130)
+CharBytes(c) ==
+  CASE c = 3  -> <<31, 32>>
+    [] c = 40 -> <<195, 169>>            \* U+00E9 e-acute
+    [] c = 41 -> <<195, 168>>            \* U+00E8 e-grave           (lead byte of 40)
+    [] c = 42 -> <<226, 130, 172>>       \* U+20AC EURO SIGN
+    [] c = 43 -> <<226, 130, 189>>       \* U+20BD RUBLE SIGN        (first two bytes of 42)
+    [] c = 44 -> <<226, 132, 162>>       \* U+2122 TRADE MARK SIGN   (lead byte of 42)
+    [] c = 45 -> <<209, 145>>            \* U+0451 Cyrillic io
+    [] c = 46 -> <<209, 138>>            \* U+044A Cyrillic hard sign (lead byte of 45)
+    [] c = 47 -> <<208, 191>>            \* U+043F Cyrillic pe
+    [] c = 48 -> <<194, 169>>            \* U+00A9 COPYRIGHT SIGN    (only the continuation byte of 40)
+    [] c = 49 -> <<240, 159, 152, 128>>  \* U+1F600
+    [] c = 50 -> <<240, 159, 152, 129>>  \* U+1F601                  (first three bytes of 49)
+    [] OTHER  -> <<c>>
+MultiByte == {3} \cup 40..50
+Width(c)     == Len(CharBytes(c))
 LowerGo(c)   == IF c = 2 THEN 1 ELSE IF c = 3 THEN 4 ELSE c     \* unicode.ToLower
 LowerFine(c) == IF c = 2 THEN 1 ELSE c                          \* a fold under which U+0130 only equals itself
 Ident(c)     == c
@@ -215,15 +238,20 @@ Decl(r, ev) ==
 -----------------------------------------------------------------------------
 (* ---- what the code does (pipeline/doif), step by step; bytes: U+0130 = <<31, 32>> ---- *)
 RECURSIVE Bytes(_)
-Bytes(s) == IF s = <<>> THEN <<>>
-            ELSE (IF s[1] = 3 THEN <<31, 32>> ELSE <<s[1]>>) \o Bytes(Tail(s))
-\* bytes.ToLower: a split U+0130 (lone lead or continuation byte) becomes a replacement rune (99)
-RECURSIVE LowerB(_)
-LowerB(b) ==
+Bytes(s) == IF s = <<>> THEN <<>> ELSE CharBytes(s[1]) \o Bytes(Tail(s))
+\* utf8.DecodeRune over the bytes: the characters; a byte of a split multi-byte character is a RuneError (99)
+IsMBByte(x) == x \in {31, 32} \/ x >= 128
+StartsWith(b, p) == Len(p) <= Len(b) /\ SubSeq(b, 1, Len(p)) = p
+RECURSIVE Runes(_)
+Runes(b) ==
   IF b = <<>> THEN <<>>
-  ELSE IF Len(b) >= 2 /\ b[1] = 31 /\ b[2] = 32 THEN <<4>> \o LowerB(SubSeq(b, 3, Len(b)))
-  ELSE IF b[1] \in {31, 32} THEN <<99>> \o LowerB(Tail(b))
-  ELSE <<LowerGo(b[1])>> \o LowerB(Tail(b))
+  ELSE IF ~IsMBByte(b[1]) THEN <<b[1]>> \o Runes(Tail(b))
+  ELSE IF \E c \in MultiByte : StartsWith(b, CharBytes(c))
+       THEN LET c == CHOOSE c \in MultiByte : StartsWith(b, CharBytes(c)) IN
+            <<c>> \o Runes(SubSeq(b, Width(c) + 1, Len(b)))
+       ELSE <<99>> \o Runes(Tail(b))
+\* bytes.ToLower: rune by rune; a RuneError stays one
+LowerB(b) == Bytes(Map(Runes(b), LowerGo))
 DLen(d) == IF d = Nil THEN 0 ELSE Len(d)
 NB(d)   == IF d = Nil THEN <<>> ELSE d
 
@@ -258,8 +286,10 @@ ImplStrOp(l, fv) ==
          [] l.op = "contains" ->
               \E i \in 1..Len(cur) : StrContains(low(NB(data)), NB(cur[i]))
          [] l.op = "contains_any" ->
-              LET d2 == low(NB(data)) IN
-              \E i \in 1..Len(d2) : \E j \in 1..Len(cur[1]) : d2[i] = cur[1][j]
+              \* bytes.ContainsAny(eventData, string(values[0])): runes of both; the mutant looks bytes up in a table
+              LET d2 == IF M_ContainsAnyRunes THEN Runes(low(NB(data))) ELSE low(NB(data))
+                  cv == IF M_ContainsAnyRunes THEN Runes(cur[1]) ELSE cur[1] IN
+              \E i \in 1..Len(d2) : \E j \in 1..Len(cv) : d2[i] = cv[j] /\ d2[i] # 99
          [] l.op = "prefix" ->
               LET t == IF DLen(data) > maxLen THEN SubSeq(data, 1, maxLen) ELSE NB(data) IN
               \E i \in 1..Len(cur) : StrHasPrefix(low(t), NB(cur[i]))
@@ -428,18 +458,30 @@ EventsT == SetToSeq(EvT({Abs, Str(<<1>>), Str(<<2>>), Str(<<5>>)},
 RulesT3 == IF Depth3 THEN LET P == Pool(2) IN Logic2(P \cup Logic2(P \cup Logic2(P))) ELSE {}
 EventsT3 == SetToSeq(EvT({Abs, Str(<<1>>)}, {Abs, Num(7), Num(12)}))
 
+\* part U: multi-byte characters for the per-character operator (contains_any) and the substring operators
+UStr1   == Strs(UChars, 1) \ {<<>>}
+UStr2   == Strs(UChars, 2) \ {<<>>}
+RulesU  == {[op |-> "contains_any", path |-> PF, cs |-> c, vals |-> <<v>>] : c \in {0, 1}, v \in UStr2}
+           \cup {[op |-> o, path |-> PF, cs |-> c, vals |-> <<v>>] :
+                   o \in {"equal", "contains", "prefix", "suffix"}, c \in {0, 1}, v \in UStr1}
+           \cup {[op |-> o, path |-> PF, cs |-> 1, vals |-> <<v, w>>] :
+                   o \in {"contains", "prefix", "suffix"}, v \in UStr1, w \in UStr1}
+EventsU == SetToSeq(EvOf({Str(s) : s \in Strs(UChars, UMaxData)} \cup {Abs, Nul}))
+
 \* part N: ts_cmp against `now` with value_shift of hours, on event times placed around the moment of the replay
 RulesN == {[op |-> "ts_cmp", path |-> PF, cmp |-> c, value |-> 0, shift |-> sh, now |-> TRUE, upd |-> u, unit |-> "m"] :
              c \in CmpOps, sh \in {-60, 0, 60}, u \in {0, 2}}
 EventsN == SetToSeq(EvOf({NowStr(o) : o \in {-150, -90, -30, 30, 90, 150}}
                          \cup {Abs, Nul, Num(7), Str(<<1>>), Str(<<>>), Obj(<<>>)}))
 
-AllParts == {"F", "R", "L", "P", "T", "T3", "N"}
+AllParts == {"F", "R", "L", "P", "T", "T3", "N", "U"}
 Parts == IF PartsOn = {} THEN AllParts ELSE PartsOn
 RulesOf(p) == CASE p = "F" -> RulesF [] p = "R" -> RulesR [] p = "L" -> RulesL
                 [] p = "P" -> RulesP [] p = "T" -> RulesT [] p = "T3" -> RulesT3 [] p = "N" -> RulesN
+                [] p = "U" -> RulesU
 EventsOf(p) == CASE p = "F" -> EventsF [] p = "R" -> EventsR [] p = "L" -> EventsL
                  [] p = "P" -> EventsP [] p = "T" -> EventsT [] p = "T3" -> EventsT3 [] p = "N" -> EventsN
+                 [] p = "U" -> EventsU
 
 -----------------------------------------------------------------------------
 NoRule == [op |-> "none"]
@@ -453,8 +495,10 @@ RuleSeqP == SetToSeq(RulesP)
 RuleSeqT == SetToSeq(RulesT)
 RuleSeqT3 == SetToSeq(RulesT3)
 RuleSeqN == SetToSeq(RulesN)
+RuleSeqU == SetToSeq(RulesU)
 RuleSeqOf(p) == CASE p = "F" -> RuleSeqF [] p = "R" -> RuleSeqR [] p = "L" -> RuleSeqL
                   [] p = "P" -> RuleSeqP [] p = "T" -> RuleSeqT [] p = "T3" -> RuleSeqT3 [] p = "N" -> RuleSeqN
+                  [] p = "U" -> RuleSeqU
 
 Init == cs = [part |-> "-", kind |-> "start", b |-> 0, rule |-> NoRule]
 Next ==
